@@ -34,8 +34,10 @@ def get_dump(crate):
         if os.path.isdir(root):
             old = sorted([d for d in os.listdir(root) if d.startswith(crate + "-") and d != os.path.basename(out)],
                          key=lambda d: os.path.getmtime(os.path.join(root, d)))
-            for d in old[:-2]:      # keep the two most recent other trees (mutant / restored tree alternate)
-                shutil.rmtree(os.path.join(root, d), ignore_errors=True)
+            import time as _t
+            for d in old[:-6]:      # keep the most recent other trees (mutant / restored tree alternate; concurrent runs on other copies)
+                if _t.time() - os.path.getmtime(os.path.join(root, d)) > 1800:
+                    shutil.rmtree(os.path.join(root, d), ignore_errors=True)
         shutil.rmtree(out, ignore_errors=True)
         os.makedirs(out)
         with kani.FixedScratch("mir") as fs:
